@@ -47,7 +47,15 @@ def monitor_rhs1d(args, kwargs, result, tok):
             continue
         src = 0.0
         sscale = 0.0
-        if disc.model.source and disc.model.source[i]:
+        declared = DECLARED.get(id(disc.model))
+        if declared is not None:
+            # the sources as the CALLER declared them (user functions, plus the nozzle's geometric terms from their formula), not what the
+            # model object says about itself
+            if declared[i] is not None:
+                with probes.quiet():
+                    s = np.asarray(declared[i](np.asarray(disc.mesh.centers(), float), [np.asarray(q, float) for q in disc.qdata], disc.mesh), float) * np.ones(n)
+                src = float(np.sum(vol * s)); sscale = float(np.sum(vol * np.abs(s)))
+        elif disc.model.source and disc.model.source[i]:
             with probes.quiet():
                 s = disc.model.source[i](disc.mesh.centers(), disc.qdata)
             src = float(np.sum(vol * s)); sscale = float(np.sum(vol * np.abs(s)))
@@ -138,6 +146,9 @@ def rhs1d(ctx, rng, idx):
     ctx.info["rhs1d_mesh"][s.mdesc["kind"]] += 1
 
 
+DECLARED = {}      # id(model) -> per-equation sources as declared by the group that built the model (callables (x, q, mesh) or None)
+
+
 def _src(rng, neq):
     """random per-equation sources (state and position dependent), some None"""
     out, desc = [], []
@@ -153,12 +164,39 @@ def _src(rng, neq):
 
 @group(quick=300, thorough=10000)
 def rhs1d_sources(ctx, rng, idx):
-    """operator with declared sources: integral changes by boundary fluxes + integral of the sources"""
-    mname = str(rng.choice(["euler1d", "shallowwater"]))
-    src, sdesc = _src(rng, 3 if mname == "euler1d" else 2)
-    s = gen.scenario1d(rng, mname=mname, source=src, intdata=0.1)
+    """operator with declared sources: integral changes by boundary fluxes + integral of the sources -- the sources being what the
+    caller declared (for the nozzle: each user function PLUS the geometric term -(1/A)(dA/dx) x flux of its equation)"""
+    mname = str(rng.choice(["euler1d", "shallowwater", "nozzle"]))
+    neq = 2 if mname == "shallowwater" else 3
+    src, sdesc = _src(rng, neq)
+    if mname == "nozzle" and rng.random() < 0.7:          # several DIFFERENT user sources at once
+        src2, sdesc2 = _src(rng, neq)
+        src = [a_ or b_ for a_, b_ in zip(src, src2)]; sdesc = [a_ or b_ for a_, b_ in zip(sdesc, sdesc2)]
+    section = None
+    if mname == "nozzle":
+        aa, bb = float(np.round(rng.uniform(0.5, 2), 2)), float(np.round(rng.uniform(0.05, 0.5), 2))
+        section = (lambda x: aa * (1.0 + bb * np.sin(0.9 * x) ** 2)) if rng.random() < 0.8 else (lambda x: aa + 0.0 * x)
+        section.desc = "%g*(1+%g*sin(0.9x)^2)" % (aa, bb)
+    s = gen.scenario1d(rng, mname=mname, source=src, section=section, intdata=0.1 if mname != "nozzle" else 0.0)
+    if mname == "nozzle":
+        gam = s.model.gamma
+        def geo(i):
+            def g(x, q, mesh, i=i):
+                xf = np.asarray(mesh.xf, float)
+                gt = (section(xf[1:]) - section(xf[:-1])) / (xf[1:] - xf[:-1]) / section(x)
+                rho, mom, E = q
+                u = mom / rho; pr = (gam - 1) * (E - 0.5 * mom * u)
+                return -gt * [mom, mom * u, u * (E + pr)][i]
+            return g
+        decl = [(lambda x, q, mesh, f_=src[i], g_=geo(i): (f_(x, q) if f_ else 0.0) + g_(x, q, mesh)) for i in range(3)]
+    else:
+        decl = [((lambda x, q, mesh, f_=f: f_(x, q)) if f else None) for f in src]
+    DECLARED[id(s.model)] = decl
     ctx.describe(sources=sdesc, **s.desc())
-    s.disc.rhs(s.field)
+    try:
+        s.disc.rhs(s.field)
+    finally:
+        DECLARED.pop(id(s.model), None)
     ctx.nontrivial(s.desc(), sdesc)
 
 
